@@ -34,6 +34,11 @@ RULE = ('a case = an initial Loop tree (depth <= 3, <= 3 children per node, coun
         'cyclic structures cut the history); held copies with every new_parent form edited and inserted; encapsulate on '
         'nodes with count 0/2/3/volatile after duration reads; flatten_and_balance depth 0..4 and add_measurements - plus '
         'a random stream over the whole forest alphabet.  check_spec also evaluates the invariant on every held tree.  '
+        'Round 4: the husk of every removing operation for removed nodes with count 1 / 0 / n / volatile; calls the caller '
+        'survives inside try/except - non-integral float counts, wrong index / value / slice-part types, a non-Loop element '
+        'after a Loop, both loop= and keywords, NaN / str / None / numpy counts, rejected assignments of nodes the caller holds - '
+        'followed by observations of the whole forest and further edits; check_spec S4: a call that raised left the forest '
+        'exactly as observed before (except the recursive reverse / cleanup / flatten).  '
         'Non-trivial = history with >= 2 effective (non-query, non-raising) edits and >= 1 duration query before an edit; '
         'distinct = distinct canonical JSON of the case.')
 TRUSTED = [
@@ -48,9 +53,11 @@ TRUSTED = [
 ]
 ASSUMPTIONS = [
     'theorems: values inserted into a tree are freshly built Loop objects, fresh copies or kept old children of the same '
-    'node; the correspondence also hands held nodes back (aliasing / cycles / failed assignments are generated, the model '
-    'follows the code there, the property fails: known findings aliased-insert, failed-assignment-reparents, '
-    'floating-copy-explicit-parent)',
+    'node; the correspondence also hands held nodes back (aliasing / cycles are generated, the model follows the code '
+    'there, the property fails: known findings aliased-insert - attributed only from the step at which the CALLER created '
+    'the aliasing -, floating-copy-explicit-parent; failed assignments have no effect since the repair of round 4)',
+    'invalid-argument calls (OReject): the expected exception kind is a table in the harness read off the source; the '
+    'model says "raises, no effect"',
     'Node.debug is off',
     'repetition counts stay small (<= a few thousand after merges)',
 ]
@@ -108,7 +115,7 @@ def rnd_optz(rng, lo=-4, hi=5):
 
 OPW = [('append', 10), ('setint', 6), ('setslice', 9), ('setwf', 5), ('setrep', 8), ('setrdef', 4), ('unroll', 6),
        ('unrollc', 5), ('split', 6), ('encaps', 5), ('merge', 5), ('cleanup', 4), ('reverse', 6), ('copyappend', 5),
-       ('qdur', 14), ('qbody', 6), ('eq', 3), ('eqcopy', 5)]
+       ('qdur', 14), ('qbody', 6), ('eq', 3), ('eqcopy', 5), ('setrepf', 3), ('bad', 4)]
 
 
 def rnd_op(rng, allow_roll):
@@ -141,7 +148,75 @@ def rnd_op(rng, allow_roll):
         op.update(sel2=rnd_sel(rng))
     elif k == 'eqcopy':
         op.update(k=rng.choice([0, 0, 1, 1, 2, 3, 4, 5]))
+    elif k == 'setrepf':
+        op.update(zf=rng.choice(FLOAT_COUNTS))
+    elif k == 'bad':
+        op.update(which=rng.choice(sorted(BAD)))
     return op
+
+
+# round 4: calls the caller survives inside try/except.  Float counts: accepted iff integral within 1e-10 (5.0, 3.00000000001),
+# rejected otherwise (ValueError) - 2.99999999999 truncates to 2 and is rejected
+FLOAT_COUNTS = ['7.5', '1.25', '2.999', '-0.5', '2.99999999999', '0.3', '1e-11', '5.0', '3.00000000001', '0.0', '2.0', '1.0']
+# invalid-argument calls -> the exception the code documents / raises BEFORE it touches anything (read off the source)
+BAD = {
+    'setrep_str': 'KAssert', 'setrep_none': 'KAssert', 'setrep_nan': 'KValue', 'setrep_npint': 'KAssert',
+    'setint_stridx': 'KType', 'setint_floatidx': 'KType', 'setint_noneidx': 'KType', 'setint_intval': None, 'setint_noneval': None,
+    'setslice_loopval': 'KType', 'setslice_badelem': 'KType', 'setslice_noniter': 'KType', 'setslice_strpart': 'KType',
+    'append_both': 'KValue', 'append_badkw': 'KType', 'append_badrep': 'KAssert', 'append_intval': 'KType',
+    'split_float': 'KType', 'split_str': 'KType', 'copy_badparent': 'KType',
+}
+
+
+def do_bad(env, x, which, vals=None):
+    """performs the invalid call `which` on node x (values: `vals` = Loop objects the caller holds, default fresh ones);
+    returns the expected outcome kind"""
+    fresh = lambda: env.build(L(['c', '3', 1]))
+    v = (vals or [fresh()])[0]
+    exp = BAD[which]
+    if which == 'setrep_str':
+        x.repetition_count = '3'
+    elif which == 'setrep_none':
+        x.repetition_count = None
+    elif which == 'setrep_nan':
+        x.repetition_count = float('nan')
+    elif which == 'setrep_npint':
+        import numpy
+        x.repetition_count = numpy.int64(3)
+    elif which == 'setint_stridx':
+        x['a'] = v
+    elif which == 'setint_floatidx':
+        x[1.0] = v
+    elif which == 'setint_noneidx':
+        x[None] = v
+    elif which in ('setint_intval', 'setint_noneval'):
+        exp = 'KIndex' if len(x) == 0 else 'KType'       # the index is looked at first (as list.__setitem__ would)
+        x[0] = 5 if which == 'setint_intval' else None
+    elif which == 'setslice_loopval':
+        x[0:1] = v
+    elif which == 'setslice_badelem':
+        x[0:1] = list(vals or [fresh()]) + [5]
+    elif which == 'setslice_noniter':
+        x[0:1] = 5
+    elif which == 'setslice_strpart':
+        x['a':] = list(vals or [fresh()])
+    elif which == 'append_both':
+        x.append_child(loop=v, waveform=None)
+    elif which == 'append_badkw':
+        x.append_child(foo=1)
+    elif which == 'append_badrep':
+        x.append_child(repetition_count=1.5, waveform=env.wf(['c', '3', 1]))
+    elif which == 'append_intval':
+        x.append_child(loop=5)
+    elif which == 'split_float':
+        x.split_one_child(0.5)
+    elif which == 'split_str':
+        x.split_one_child('a')
+    elif which == 'copy_badparent':
+        x.copy_tree_structure(new_parent=5)
+    else:
+        raise KeyError(which)
+    return exp
 
 
 def L(w, r=1, m=None):
@@ -235,13 +310,14 @@ def gen_cases(rng, tier, ctx):
                         {'op': 'qdur', 'sel': lp[:-1]}, {'op': 'qdur', 'sel': []}]})
     cases.extend(gen_forest(rng, quick))
     cases.extend(gen_forest3(rng, quick))
+    cases.extend(gen_round4(rng, quick))
     return cases
 
 
 # round 2: the user keeps references to nodes; a node that dropped out of the program is edited afterwards
 REMOVERS = ['setslice', 'setslice', 'setint', 'unroll', 'merge', 'cleanup', 'unrollc', 'encaps', 'split']
 EDITS = ['append', 'append', 'setwf', 'setrep', 'setslice', 'setint', 'copyappend', 'unrollc', 'reverse', 'qdur', 'encaps', 'split',
-         'cleanup']
+         'cleanup', 'setrepf', 'bad']
 
 
 def rnd_op_of(rng, kinds):
@@ -444,6 +520,135 @@ def gen_forest3(rng, quick):
             else:
                 ops.append({'f': 'main', 'op': rnd_op(rng, False)})
         cases.append({'kind': 'forest', 'src': 'frand3', 'init': init, 'ops': ops})
+    return cases
+
+
+# round 4: (a) the husk of EVERY operation that removes a node from the tree, for every kind of repetition count of the removed
+# node (exactly 1 - "nothing is repeated, just move the children" -, 0, n, volatile 1, volatile n), edited afterwards / the
+# moved-up nodes edited and the husk observed; (b) calls with invalid arguments inside try/except (the caller survives),
+# then the whole forest is observed and used further
+def gen_round4(rng, quick):
+    cases = []
+    lf = lambda d, r=1, v=1: L(['c', d, v], r)
+    M = lambda o: {'f': 'main', 'op': o}
+    Q = lambda sel=(): M({'op': 'qdur', 'sel': list(sel)})
+    AT = lambda k, o: {'f': 'at', 'k': k, 'op': o}
+    QH = lambda k: AT(k, {'op': 'qdur', 'sel': []})
+    H = lambda sel: {'f': 'hold', 'sel': list(sel)}
+    INS = lambda ks, dst, how, b=None: {'f': 'ins', 'ks': list(ks), 'b': b, 'dst': list(dst), 'how': how}
+
+    def add(src, init, ops):
+        cases.append({'kind': 'forest', 'src': src, 'init': init, 'ops': ops})
+
+    husk_edits = [
+        {'op': 'reverse', 'sel': []},
+        {'op': 'encaps', 'sel': []},
+        {'op': 'append', 'sel': [], 't': lf('7'), 'kw': False},
+        {'op': 'append', 'sel': [1], 't': lf('2'), 'kw': True},
+        {'op': 'setwf', 'sel': [0], 'w': ['c', '5', 1]},
+        {'op': 'setrep', 'sel': [1], 'z': 4},
+        {'op': 'setrep', 'sel': [], 'z': 4},
+        {'op': 'setslice', 'sel': [], 'start': 0, 'stop': 1, 'step': None, 'ts': []},
+        {'op': 'setslice', 'sel': [], 'start': None, 'stop': None, 'step': -1, 'ts': [lf('1'), lf('2')]},
+        {'op': 'setint', 'sel': [], 'idx': -1, 't': lf('3')},
+        {'op': 'split', 'sel': [], 'ci': None},
+        {'op': 'unrollc', 'sel': []},
+        {'op': 'cleanup', 'sel': [], 'rm': True, 'mg': True},
+        {'op': 'setrepf', 'sel': [1], 'zf': '7.5'},
+    ]
+    counts = [1, 0, 2, ['v', 1, 0], ['v', 2, 0]]
+    for c in counts:
+        X = N([lf('1'), N([lf('2')], 2)], c)
+        tree_a = N([X, lf('4', 3)], 2)                                   # X = [0] has a sibling
+        tree_m = N([N([X], 2, [[0, '0', '1']] if c == 1 else None), lf('4')], 3)     # X = [0, 0] is a single child
+        removers = [
+            ('unroll', tree_a, [0], {'op': 'unroll', 'sel': [0]}, [[0], [1]]),
+            ('unrollc', tree_a, [0], {'op': 'unrollc', 'sel': []}, [[0, 0], [0, 1]]),
+            ('setslice', tree_a, [0], {'op': 'setslice', 'sel': [], 'start': 0, 'stop': 1, 'step': None, 'ts': [lf('3')]}, [[0], [1]]),
+            ('setint', tree_a, [0], {'op': 'setint', 'sel': [], 'idx': 0, 't': lf('3')}, [[0], [1]]),
+            ('revslice', tree_a, [0], {'op': 'setslice', 'sel': [], 'start': None, 'stop': None, 'step': -1, 'ts': [lf('3'), lf('5')]}, [[0], [1]]),
+            ('merge', tree_m, [0, 0], {'op': 'merge', 'sel': [0]}, [[0, 0], [0, 1]]),
+            ('cleanup', tree_m, [0, 0], {'op': 'cleanup', 'sel': [], 'rm': True, 'mg': True}, [[0, 0], [0, 1]]),
+            ('unroll2', tree_m, [0, 0], {'op': 'unroll', 'sel': [0, 0]}, [[0, 0], [0, 1]]),
+        ]
+        for name, init, hsel, rm, moved in removers:
+            src = 'husk1' if name in ('unroll', 'unroll2') and c in (1, ['v', 1, 0]) else 'husk2'
+            for ed in husk_edits:       # the husk is edited
+                add(src, init, [Q(), H(hsel), M(rm), Q(), AT(0, ed), Q(), QH(0), Q(moved[0]), Q(moved[1])])
+            for ed in ({'op': 'setwf', 'sel': moved[0], 'w': ['c', '7', 1]}, {'op': 'setrep', 'sel': moved[1], 'z': 5},
+                       {'op': 'append', 'sel': moved[1], 't': lf('6'), 'kw': False}):
+                # the nodes that (may) have moved up are edited, the husk is observed (it cached its duration before)
+                add(src, init, [Q(), H(hsel), M(rm), QH(0), M(ed), Q(), QH(0), AT(0, husk_edits[0]), Q()])
+    # flatten_and_balance unrolls count-1 nodes that are too deep
+    for c in counts:
+        init = N([N([lf('1'), N([lf('2'), lf('3')], c)], 2), lf('4')], 2)
+        for depth in (0, 1):
+            for ed in husk_edits[:6]:
+                add('husk1' if c == 1 else 'husk2', init,
+                    [Q(), H([0, 1]), {'f': 'flatten', 'b': None, 'sel': [], 'depth': depth}, Q(), AT(0, ed), Q(), QH(0)])
+
+    # (b) rejected calls
+    T3 = N([N([lf('1'), lf('2', 2)], 2), lf('4', 3), N([lf('8')], ['v', 2, 0])], 2)
+    failing = [{'op': 'setrepf', 'zf': z} for z in FLOAT_COUNTS] + [{'op': 'bad', 'which': w} for w in sorted(BAD)] + [
+        {'op': 'setint', 'idx': 7, 't': lf('3')}, {'op': 'setint', 'idx': -9, 't': lf('3')},
+        {'op': 'setslice', 'start': None, 'stop': None, 'step': 0, 'ts': [lf('3')]},
+        {'op': 'setslice', 'start': 0, 'stop': None, 'step': 2, 'ts': [lf('3'), lf('5'), lf('6')]},
+        {'op': 'setslice', 'start': None, 'stop': None, 'step': -1, 'ts': [lf('3')]},
+        {'op': 'split', 'ci': 5}, {'op': 'split', 'ci': 0}, {'op': 'split', 'ci': None},
+        {'op': 'unroll'}, {'op': 'unrollc'}, {'op': 'reverse'},
+    ]
+    for f in failing:
+        for sel in ([], [0], [0, 1], [2]):
+            g = dict(f, sel=sel)
+            # in the program: caches populated before, the forest observed after, then a valid edit and another query
+            add('failcall', T3, [Q(), H([0]), M(g), Q(), M({'op': 'setrep', 'sel': sel, 'z': 3}), Q(), M(g), Q(sel)])
+        for sel in ([], [1]):
+            g = dict(f, sel=sel)
+            # on a node that dropped out of the program
+            add('failcall', T3, [Q(), H([0]), M({'op': 'setslice', 'sel': [], 'start': 0, 'stop': 1, 'step': None, 'ts': [lf('3')]}),
+                                 QH(0), AT(0, g), Q(), QH(0), AT(0, {'op': 'append', 'sel': sel, 't': lf('5'), 'kw': False}), Q(), QH(0)])
+    # rejected assignments of nodes the caller HOLDS (still listed / detached before): the values must stay as they are
+    bad_hows = [['int', 7], ['int', -9], ['slice', None, None, 0], ['slice', 0, None, 2], ['slice', None, None, -1],
+                ['bad', 'setint_stridx'], ['bad', 'setint_floatidx'], ['bad', 'setslice_badelem'], ['bad', 'setslice_strpart'],
+                ['bad', 'setslice_loopval'], ['bad', 'append_both']]
+    for how in bad_hows:
+        for dst in ([], [2], [1]):
+            for detach in (False, True):
+                ops = [Q(), H([0]), H([0, 1])]
+                if detach:
+                    ops += [M({'op': 'setslice', 'sel': [], 'start': 0, 'stop': 1, 'step': None, 'ts': [lf('3')]}), Q()]
+                ks = [0, 1] if how == ['slice', 0, None, 2] and dst == [] and not detach else [0]
+                ops += [INS(ks, dst, how), Q(), M({'op': 'append', 'sel': [0] if not detach else [], 't': lf('5'), 'kw': False}), Q(),
+                        AT(0, {'op': 'append', 'sel': [], 't': lf('6'), 'kw': False}), Q(), QH(0)]
+                add('failins', T3, ops)
+    # (c) lines the coverage audit found unreached: split_one_child(None) with TWO volatile children of count > 1 (the first
+    # one found from the right stays the fallback), merge with measurements on parent AND child, cleanup dropping an inner node
+    # that has measurements and becomes empty, roll on a long non-constant leaf
+    V2 = N([L(['c', '1', 1], ['v', 2, 0]), L(['c', '2', 1], ['v', 3, 1]), lf('4')], 2)
+    add('cov4', V2, [Q(), M({'op': 'split', 'sel': [], 'ci': None}), Q(), M({'op': 'split', 'sel': [], 'ci': None}), Q(),
+                     M({'op': 'split', 'sel': [], 'ci': None}), Q(), M({'op': 'setwf', 'sel': [1], 'w': ['c', '3', 1]}), Q()])
+    MM = N([N([N([lf('1'), lf('2')], 1, [[1, '0', '1/2']])], 2, [[0, '0', '1']]), lf('4')], 3)
+    for rm in ({'op': 'merge', 'sel': [0]}, {'op': 'cleanup', 'sel': [], 'rm': True, 'mg': True}):
+        # the merged child is NOT held here: merge extends the child's measurement LIST OBJECT in place and hands it to the
+        # parent (the husk would show the parent's windows too; shared list objects are not modelled, C02's business)
+        add('cov4', MM, [Q(), M(rm), Q(), M({'op': 'append', 'sel': [0], 't': lf('7'), 'kw': False}), Q(),
+                         M({'op': 'reverse', 'sel': []}), Q()])
+    DM = N([N([L(None), N([L(None)], 2)], 2, [[0, '0', '1']]), lf('4')], 2)
+    for rmf, mgf in ((True, True), (True, False)):
+        add('cov4', DM, [Q(), H([0]), M({'op': 'cleanup', 'sel': [], 'rm': rmf, 'mg': mgf}), Q(), AT(0, husk_edits[2]), Q(), QH(0)])
+    RT = N([L(['t', '3', 1, False], 2), lf('8')], 2)
+    add('cov4', RT, [Q(), M({'op': 'roll', 'sel': [], 'mq': 1, 'q': 1, 'sr': '1'}), Q(), M({'op': 'setrep', 'sel': [0], 'z': 3}), Q()])
+    if quick:
+        off = rng.randint(0, 4)
+        keep_all = ('husk1', 'cov4')
+        rejected_floats = FLOAT_COUNTS[:5]
+
+        def always(c):      # a rejected float count on a node whose ancestors have cached durations
+            o = c['ops'][2].get('op', {})
+            return c['src'] == 'failcall' and o.get('op') == 'setrepf' and o['zf'] in rejected_floats and o['sel'] in ([0], [0, 1])
+        cases = [c for i, c in enumerate(cases) if c['src'] in keep_all or (i % 5 == off and c['src'] != 'husk2') or always(c)
+                 or (c['src'] == 'husk2' and i % 10 == off)
+                 or (c['src'] == 'failins' and i % 2 == off % 2)]
     return cases
 
 
@@ -664,6 +869,12 @@ def apply_op(env, root, op):
             x.repetition_count = op['z']
         elif k == 'setrdef':
             x.repetition_definition = env.rdef(op['r'])
+        elif k == 'setrepf':
+            rop['zq'] = vlib.frac_json(F(float(op['zf'])))      # the exact value of the double
+            x.repetition_count = float(op['zf'])
+        elif k == 'bad':
+            rop['exp'] = BAD[op['which']] or ('KIndex' if len(x) == 0 else 'KType')
+            do_bad(env, x, op['which'])
         elif k == 'unroll':
             x.unroll()
         elif k == 'unrollc':
@@ -764,6 +975,7 @@ def run_forest(case):
                 main = {id(n) for n, _ in _live(root)}
                 return [None if id(m) in main else sub_obs(m) for m in held]
             steps = [{'f': {'f': 'main', 'op': nop}, 'out': 'KDone', 'eq': None, 'tree': observe(root), 'held': []}]
+            caller_aliased = False
             floating = set()        # ids of held copies made with an explicit new_parent that were not inserted anywhere yet
             dummy = {'rep': 1, 'vol': False, 'wf': None, 'meas': None, 'dur': '0', 'pidx': None, 'par': None, 'loc': 'self', 'c': []}
             for fo in case['ops']:
@@ -821,7 +1033,11 @@ def run_forest(case):
                     if any(id(v) in floating for v in vals) or id(base) in floating:
                         flags['floating_edit'] = True
                     try:
-                        if how[0] == 'slice':
+                        if how[0] == 'bad':       # an invalid call handing the held nodes themselves: rejected, no effect
+                            rf = {'f': 'main', 'op': {'op': 'bad', 'path': [], 'which': how[1],
+                                                      'exp': BAD[how[1]] or ('KIndex' if len(x) == 0 else 'KType')}}
+                            do_bad(env, x, how[1], vals)
+                        elif how[0] == 'slice':
                             x[slice(how[1], how[2], how[3])] = vals
                         elif not vals:
                             pass
@@ -859,17 +1075,22 @@ def run_forest(case):
                     raise KeyError(kind)
                 if kind == 'ins' and out == 'KDone':
                     floating.difference_update(id(v) for v in vals)
-                if kind == 'ins' and out != 'KDone':
-                    flags['failed_insert'] = True
                 if floating:
                     flags['floating'] = True
+                # round 4: aliasing / cycles are the CALLER's doing (known finding aliased-insert) only when they appear at a
+                # step where the caller handed held nodes back; an operation of the library that leaves one node listed by
+                # two nodes (a moved child still listed by the husk) is a violation and must not be masked
                 if _cyclic(root) or any(_cyclic(m) for m in held):
                     cut = {'KDone': 'KCycle', 'KRecursion': 'KRecCycle'}.get(out)
-                    if cut is None:
-                        raise RuntimeError('cyclic structure after %s' % out)
+                    if cut is None or not (kind == 'ins' or caller_aliased):
+                        raise RuntimeError('cyclic structure after %s of %s' % (out, kind))
                     steps.append({'f': rf, 'out': cut, 'eq': None, 'tree': dummy, 'held': [], 'flags': dict(flags, aliased=True)})
                     break
-                if _aliased([root] + held):
+                if kind == 'ins' and (_aliased([root] + held) or (root.parent is not None and len(root.parent) > 0)):
+                    # one object at two places, or the program root itself handed to another tree (the program is then a
+                    # subtree of the caller's new tree: recorded positions are relative to that tree's top)
+                    caller_aliased = True
+                if caller_aliased:
                     flags['aliased'] = True
                 steps.append({'f': rf, 'out': out, 'eq': eq, 'tree': observe(root), 'held': held_obs(), 'flags': flags})
             return {'init': init, 'steps': steps, 'forest': True}
@@ -961,6 +1182,10 @@ def g_op(o):
         return '(OSetRepCount %s %s)' % (p, gZ(o['z']))
     if k == 'setrdef':
         return '(OSetRepDef %s %s)' % (p, g_rdef(o['r']))
+    if k == 'setrepf':
+        return '(OSetRepCountQ %s %s)' % (p, gQ(F(o['zq'])))
+    if k == 'bad':
+        return '(OReject %s %s)' % (p, 'Ex' + o['exp'][1:])
     if k == 'unroll':
         return '(OUnroll %s)' % p
     if k == 'unrollc':
@@ -1063,10 +1288,18 @@ def inv_tree(t, here=(), root=True, idx=0, par=()):
     return None
 
 
+REJECTING = ('KIndex', 'KType', 'KValue', 'KRuntime', 'KAssert')
+PARTIAL_OPS = ('reverse', 'cleanup', 'flatten')      # recursive operations: a failure deep down leaves the work done so far
+
+
 def first_failure(obs):
-    for i, s in enumerate(obs.get('steps', [])):
+    steps = obs.get('steps', [])
+    for i, s in enumerate(steps):
         if s['out'] in ('KCycle', 'KRecCycle'):
             return i, 'the structure is cyclic (a node became its own descendant)'
+        if i and s['out'] in REJECTING and _opname(s).split(':')[-1] not in PARTIAL_OPS:
+            if s['tree'] != steps[i - 1]['tree'] or s.get('held', []) != steps[i - 1].get('held', []):
+                return i, 'S4 the call raised %s but changed the forest (state left behind by a rejected call)' % s['out']
         r = inv_tree(s['tree'])
         if r:
             return i, r
@@ -1089,10 +1322,11 @@ def _opname(s):
 
 def classify(case, obs):
     """known findings (documented domain restrictions of the property, see notes/C09.md):
-    aliased-insert: the caller hands a Loop object that is still listed somewhere to another position (one object at two
-    places, or below itself); failed-assignment-reparents: x[i] = v / x[a:b:c] = vs re-parents the values before it raises
-    IndexError / ValueError; floating-copy-explicit-parent: a copy made with an explicit new_parent records a parent
-    that does not list it."""
+    aliased-insert: the CALLER hands a Loop object that is still listed somewhere to another position (one object at two
+    places, or below itself) - attributed only from the step at which the caller did so (round 4: the flag used to be read
+    off the object state, which masked seed C09-5, where the library itself leaves a node listed twice);
+    floating-copy-explicit-parent: a copy made with an explicit new_parent records a parent that does not list it.
+    (failed-assignment-reparents was repaired in round 4: no classification any more.)"""
     ff = first_failure(obs)
     if ff is None:
         return None
@@ -1100,8 +1334,6 @@ def classify(case, obs):
     upto = obs['steps'][:i + 1]
     if any(s.get('flags', {}).get('aliased') for s in upto):
         return 'aliased-insert'
-    if any(s.get('flags', {}).get('failed_insert') for s in upto):
-        return 'failed-assignment-reparents'
     if any(s.get('flags', {}).get('floating') or s.get('flags', {}).get('floating_edit') for s in upto):
         return 'floating-copy-explicit-parent'
     return None
@@ -1207,7 +1439,12 @@ MANIFEST = {
                   'slice form (renumbering loops, detaching of replaced children), setters, memoising queries, unroll, '
                   'unroll_children, split_one_child, encapsulate, merge (incl. the emptying of the merged child, repair of '
                   'round 3), cleanup (recursive), reverse_inplace, roll_constant_waveforms, copies, == - inside '
-                  'guard_C09_args: minimal_waveform_quanta >= 1; add_measurements (round 3).  Loop.__eq__ reads '
+                  'guard_C09_args: minimal_waveform_quanta >= 1; add_measurements (round 3); float-valued counts and '
+                  'rejected calls (round 4: 22 operations).  C09_failed_call_no_effect (round 4): x[idx] = v can only fail '
+                  'with IndexError, x[a:b:st] = vals with ValueError, a float count with ValueError, and then NOTHING was '
+                  'changed - also when the values are nodes the caller holds (Node.__setitem__ validates before it '
+                  're-parents: repair f8d6b25, former known finding failed-assignment-reparents); refuted for the '
+                  'recursive reverse_inplace (partial work is kept, Inv holds).  Loop.__eq__ reads '
                   'structure/counts/waveforms/measurements only and answers true exactly for structurally equal subtrees.  '
                   'Fuel: depth < heap size proved, the fueled primitives are total, histories over setters/queries need no '
                   'assumption.  The round-2 forest statement is proved FALSE for held copies with an explicit parent '
@@ -1218,8 +1455,8 @@ MANIFEST = {
                   'every held tree (check_spec).',
     'level_note': 'Trusted: Coq kernel + vm_compute; the hand-written model (tied to /repo by correspondence only, no '
                   'translator); abstract waveforms; parent weak references as plain ids (objects kept alive); theorems '
-                  'assume inserted values are fresh or kept children (aliased / failed / floating insertions are known '
-                  'findings, model follows the code); fuel exhaustion / dangling ids excluded by hypothesis for the '
+                  'assume inserted values are fresh or kept children (aliased / floating insertions are known '
+                  'findings, model follows the code); the table of expected exceptions for invalid-argument calls; fuel exhaustion / dangling ids excluded by hypothesis for the '
                   'structural operations; Prop-level Inv and the boolean check_spec are the same clauses by inspection '
                   'only (I1 linked by C09_reported_is_recomputed); for minimal_waveform_quanta <= 0 the model does not '
                   'follow the code; make_compatible and shared measurement-list objects not modelled; harness '
